@@ -1,6 +1,7 @@
 package rules
 
 import (
+	"go/token"
 	"go/types"
 	"sort"
 	"strings"
@@ -224,12 +225,84 @@ func visitedGuard(comp map[*ssa.Function]bool, p *core.Program) (string, bool) {
 			}
 			for _, cl := range calls {
 				if lb == cl.Block() || lb.Dominates(cl.Block()) {
-					return core.FuncName(f) + " tests and updates " + id, true
+					if why := reinitInside(comp, id); why != "" {
+						return "", false
+					}
+					return core.FuncName(f) + " tests and updates " + id + " (not re-created inside the cycle)", true
 				}
 			}
 		}
 	}
 	return "", false
+}
+
+// reinitInside: the visited set `id` (a map held in a struct field) is assigned a new map by a
+// function of the recursive component, and that assignment is not a once-only initialisation.
+// Accepted idiom: the store sits under `if F == nil` and the same block stores a freshly made,
+// non-nil value to F (so the condition is false for every nested call).
+func reinitInside(comp map[*ssa.Function]bool, id string) string {
+	if !strings.HasPrefix(id, "field:") {
+		return ""
+	}
+	fieldID := func(v ssa.Value) string {
+		if fa, ok := v.(*ssa.FieldAddr); ok {
+			return "field:" + fa.X.Type().String() + "#" + core.F("%d", fa.Field)
+		}
+		return ""
+	}
+	for f := range comp {
+		for _, b := range f.Blocks {
+			for _, in := range b.Instrs {
+				st, ok := in.(*ssa.Store)
+				if !ok || fieldID(st.Addr) != id {
+					continue
+				}
+				// find the controlling `if F == nil`
+				okIdiom := false
+				for d := b; d != nil && !okIdiom; d = d.Idom() {
+					idom := d.Idom()
+					if idom == nil || len(idom.Instrs) == 0 {
+						continue
+					}
+					ifi, isIf := idom.Instrs[len(idom.Instrs)-1].(*ssa.If)
+					if !isIf || len(idom.Succs) != 2 || !(idom.Succs[0] == d) {
+						continue
+					}
+					bo, isBin := ifi.Cond.(*ssa.BinOp)
+					if !isBin || bo.Op != token.EQL {
+						continue
+					}
+					var other ssa.Value
+					if cst, isC := bo.Y.(*ssa.Const); isC && cst.IsNil() {
+						other = bo.X
+					} else if cst, isC := bo.X.(*ssa.Const); isC && cst.IsNil() {
+						other = bo.Y
+					}
+					ld, isLoad := other.(*ssa.UnOp)
+					if other == nil || !isLoad {
+						continue
+					}
+					guardField := fieldID(ld.X)
+					if guardField == "" {
+						continue
+					}
+					// the guarded region stores a fresh non-nil value into the guard field
+					for _, in2 := range b.Instrs {
+						if st2, ok := in2.(*ssa.Store); ok && fieldID(st2.Addr) == guardField {
+							switch st2.Val.(type) {
+							case *ssa.MakeMap, *ssa.MakeSlice, *ssa.Alloc, *ssa.Slice, *ssa.MakeChan:
+								okIdiom = true
+							}
+						}
+					}
+				}
+				if !okIdiom {
+					return core.FuncName(f) + " re-creates the visited set inside the cycle"
+				}
+			}
+		}
+	}
+	return ""
 }
 
 // structuralArg: some argument (or the receiver) of the call is an element of a
